@@ -436,10 +436,10 @@ pub fn par_explore<K: Kit>(
                     rep.distinct.insert(h128(&key));
                 }
                 per_history(&sh.sc, seq, r, &mut rep);
-                // quick tier: call boundaries for every scenario of C02 / C04 and for a quarter of the
-                // scenario roots of the others (chosen by tag hash: deterministic, spread over planners,
-                // spaces and worlds); thorough: everywhere
-                if splits && (all_splits || split_all_roots || sc_h % 4 == 0) {
+                // call boundaries and prior lives for every scenario root of C02 / C04 and for a quarter of
+                // the roots of the others (chosen by tag hash: deterministic, spread over planners, spaces
+                // and worlds); the thorough tier puts the boundary at every position instead of two
+                if splits && (split_all_roots || sc_h % 4 == 0) {
                     // the same samples with one call boundary at every position
                     // quick tier: boundaries after the first and before the last sample; thorough: all
                     let ks: Vec<usize> = if sh.sc.params.pk == Pk::Prm {
